@@ -14,7 +14,7 @@ Record rcase := {
   rc_site : call_site;
   rc_is_timeout : bool;
   rc_draw : draw;
-  rc_timed_out_on : text;
+  rc_timeouts : list text;                              (* times of the run's wait_timed_out events, oldest first *)
   rc_prev : option result;
   (* oracle tables *)
   rc_evals : list (text * (N * (bool * nat)));          (* template |-> value id, error logged, #warnings *)
@@ -104,7 +104,7 @@ Definition run_model (k : rcase) : visit_out :=
   visit N (lookup_eval (rc_evals k)) (lookup_text (rc_texts k))
         (fun t => existsb (N.eqb t) (rc_registered k)) (lookup_test (rc_tests k))
         (rc_lc k) (rc_max k) (rc_site k) (rc_flow_nodes k) (rc_node k) (rc_is_timeout k)
-        (rc_draw k) (rc_timed_out_on k) (rc_prev k).
+        (rc_draw k) (scan_timeouts (rc_timeouts k)) (rc_prev k).
 
 Definition check (k : rcase) : bool :=
   let v := run_model k in
